@@ -1000,6 +1000,14 @@ class Exec:
         return self.call_method(b, '__lt__', [a], node)
     if isinstance(a, VTuple) and isinstance(b, VTuple):
       return VBool(tuple_order(op, a, b))
+    if isinstance(a, VOpaque) and isinstance(b, VOpaque) and (
+        a.okind == 'Ts' and b.okind == 'Ts'):
+      gt = z3.Function('TS_GT', a.t.sort(), a.t.sort(), z3.BoolSort())
+      if isinstance(op, ast.Gt):
+        return VBool(gt(a.t, b.t))
+      if isinstance(op, ast.Lt):
+        return VBool(gt(b.t, a.t))
+      self.unsupported(node, 'timestamp comparison')
     if isinstance(a, VOpaque) or isinstance(b, VOpaque):
       return self.lib_call('numpy.cmp.' + type(op).__name__, [a, b], {}, node)
     self.unsupported(node, 'compare %s %s %s' % (a.kind, type(op).__name__,
